@@ -28,7 +28,7 @@ let sync_str = function
   | SWait -> "W" | SWake -> "K" | SSignal -> "S" | SPoll -> "P" | SNop -> "N"
 let ev_str = function
   | ESync (_, o) -> sync_str o
-  | ESubmit (r, _, _) -> "+" ^ string_of_int (int_of_nat r)
+  | ESubmit (r, _, k) -> "+" ^ string_of_int (int_of_nat r) ^ (match k with KCpu -> "c" | KFast -> "f" | KSlow -> "s")
   | EWork (r, _) -> "w" ^ string_of_int (int_of_nat r)
   | EDone (r, _, st) -> "d" ^ string_of_int (int_of_nat r) ^ "," ^ zs st
   | ECancel (r, _, code) -> "c" ^ string_of_int (int_of_nat r) ^ "," ^ zs code
@@ -61,4 +61,44 @@ let case line =
       Buffer.contents buf
   | _ -> failwith ("bad case " ^ line)
 
-let () = iter_lines (fun l -> print_string (try case l with Failure m -> "bad " ^ m); print_newline ())
+(* enumeration of all maximal schedules (aux = 0 only, choices among enabled threads) of a
+   configuration "<n> ; <scripts> ; <behaviours>", depth first, at most [limit] of them; every
+   schedule is printed as a complete case line *)
+let enum limit line =
+  match String.split_on_char ';' line with
+  | n :: progs :: behs :: _ ->
+      let nn = int_of_string (String.trim n) in
+      let ps = List.map (fun p -> parse_ops (String.trim p)) (String.split_on_char '|' progs) in
+      let tbl = Hashtbl.create 16 in
+      List.iter (fun b -> match String.split_on_char ':' b with
+                          | [r; ops] -> Hashtbl.replace tbl (int_of_string r) (parse_ops ops)
+                          | _ -> failwith "bad beh") (split_on ' ' behs);
+      let beh r = try Hashtbl.find tbl (int_of_nat r) with Not_found -> [] in
+      let c = { c_n = nat_of_int nn; c_loops = nat_of_int (List.length ps); c_beh = beh } in
+      let nt = List.length ps + nn in
+      let count = ref 0 in
+      let head = String.trim n ^ " ; " ^ String.trim progs ^ " ; " ^ String.trim behs ^ " ;" in
+      let rec dfs s acc depth =
+        if !count < limit then begin
+          let any = ref false in
+          if depth < 400 then
+            for t = 0 to nt - 1 do
+              match step c s (nat_of_int t) O with
+              | Some s' -> any := true; dfs s' (t :: acc) (depth + 1)
+              | None -> ()
+            done;
+          if not !any then begin
+            incr count;
+            print_string head;
+            List.iter (fun t -> Printf.printf " %d,0" t) (List.rev acc);
+            print_newline ()
+          end
+        end in
+      dfs (init c ps) [] 0
+  | _ -> failwith "bad config"
+
+let () =
+  if Array.length Sys.argv > 2 && Sys.argv.(1) = "enum" then
+    iter_lines (fun l -> if String.trim l <> "" then enum (int_of_string Sys.argv.(2)) l)
+  else
+  iter_lines (fun l -> print_string (try case l with Failure m -> "bad " ^ m); print_newline ())
